@@ -436,6 +436,12 @@ func walkIndexStartsAtZero(fn, cl *ssa.Function, fv *ssa.FreeVar) bool {
 	}
 	findCall(mc, 0)
 	if walk == nil {
+		// the callback is kept in a variable that the walk callback captures and calls
+		if relay := relayClosureOf(fn, mc); relay != nil {
+			findCall(relay, 0)
+		}
+	}
+	if walk == nil {
 		return false
 	}
 	const (
@@ -705,6 +711,13 @@ func (c *Ctx) checkCompress() {
 								}
 								v = cv.X
 							}
+							// the weight is a parameter of this callback, which the walk callback calls
+							// through a captured variable with the record's counter as argument
+							if pv, isParam := v.(*ssa.Parameter); isParam {
+								if relayPassesCounter(fn, cl, pv) {
+									okVal = true
+								}
+							}
 							if u, ok := v.(*ssa.UnOp); ok {
 								if fa, ok := u.X.(*ssa.FieldAddr); ok && fieldName(fa.X.Type(), fa.Field) == "count" {
 									okVal = true
@@ -778,4 +791,104 @@ func (c *Ctx) checkCompress() {
 	lc := newLinCtx(c, fn)
 	L.Check(sameStableCell(fn, lc), "compress-length", r.label, "rows[:npat] and length = npat", c.P.Pos(fn.Pos()), "same variable, no store or closure creation in between", "row truncation and cached length use different values")
 	L.Floor("compress-length", 1, "one function")
+}
+
+// relayClosureOf: mc (a closure value) is stored once into a local cell that another closure of fn
+// captures; returns that other closure's MakeClosure (`each(func(...){ visit(...) })` inlined:
+// visit lives in a cell captured by the walk callback).
+func relayClosureOf(fn *ssa.Function, mc *ssa.MakeClosure) *ssa.MakeClosure {
+	var cell ssa.Value
+	for _, ref := range *mc.Referrers() {
+		if st, ok := ref.(*ssa.Store); ok && st.Val == ssa.Value(mc) {
+			if a, ok := st.Addr.(*ssa.Alloc); ok {
+				n := 0
+				for _, r2 := range *a.Referrers() {
+					if _, isSt := r2.(*ssa.Store); isSt {
+						n++
+					}
+				}
+				if n == 1 {
+					cell = a
+				}
+			}
+		}
+	}
+	if cell == nil {
+		return nil
+	}
+	var out *ssa.MakeClosure
+	allInstrs(fn, func(in ssa.Instruction) {
+		if m, ok := in.(*ssa.MakeClosure); ok && m != mc {
+			for _, b := range m.Bindings {
+				if b == cell {
+					out = m
+				}
+			}
+		}
+	})
+	return out
+}
+
+// relayPassesCounter: cl is called only through such a relay closure, and the argument passed for
+// parameter pv is the int counter of the record that the relay receives from the walk (the field of
+// the type-asserted second parameter, or the pointed-to int).
+func relayPassesCounter(fn, cl *ssa.Function, pv *ssa.Parameter) bool {
+	var mc *ssa.MakeClosure
+	allInstrs(fn, func(in ssa.Instruction) {
+		if m, ok := in.(*ssa.MakeClosure); ok && m.Fn == ssa.Value(cl) {
+			mc = m
+		}
+	})
+	if mc == nil {
+		return false
+	}
+	relay := relayClosureOf(fn, mc)
+	if relay == nil {
+		return false
+	}
+	rf, ok := relay.Fn.(*ssa.Function)
+	if !ok || len(rf.Params) < 2 {
+		return false
+	}
+	pidx := -1
+	for i, p := range cl.Params {
+		if p == pv {
+			pidx = i
+		}
+	}
+	good, n := true, 0
+	allInstrs(rf, func(in ssa.Instruction) {
+		call, ok := in.(*ssa.Call)
+		if !ok || call.Common().IsInvoke() {
+			return
+		}
+		// a call through a loaded free variable
+		u, ok := call.Common().Value.(*ssa.UnOp)
+		if !ok {
+			return
+		}
+		if _, isFV := u.X.(*ssa.FreeVar); !isFV {
+			return
+		}
+		if pidx < 0 || pidx >= len(call.Common().Args) {
+			good = false
+			return
+		}
+		n++
+		a := call.Common().Args[pidx]
+		ld, ok := a.(*ssa.UnOp)
+		if !ok {
+			good = false
+			return
+		}
+		rec := ld.X
+		if fa, ok := rec.(*ssa.FieldAddr); ok {
+			rec = fa.X
+		}
+		ta, ok := rec.(*ssa.TypeAssert)
+		if !ok || ta.X != ssa.Value(rf.Params[1]) || !isIntType(ld.Type()) {
+			good = false
+		}
+	})
+	return good && n == 1
 }
